@@ -480,91 +480,103 @@ def _segments(ctx, prog):
 
 
 def _markers(ctx, prog):
+    """coordinate-frame markers, decided by entry evaluation (sa/affine.py):
+    whatever way the (6n, 3) vertex array and the colour array are put
+    together — per pose with p.dot(unit_k), or vectorised with stacking,
+    swapping and reshaping — segment (axis a, pose p) must run from the pose
+    position P[p][:3, 3] to P[p][:3, 3] + marker_scale * P[p][:3, a] (column
+    a of the pose's rotation), rows 2k / 2k+1 of the vertex array are the
+    two ends of segment k (step=2), and segment k has the colour of its
+    axis."""
+    from ..affine import Aff, AffError, N, ONE, show
     f = prog.func(PL + "draw_coordinate_axes")
     r = Interp(prog, inline=_helpers).run(f)
     cl = r.calls(PL + "colored_line_collection")
     ctx.require(len(cl) == 1, "draw_coordinate_axes: line collection call "
                 "not found")
     b = cl[0].data["bound"]
-    verts = b.get("xyz")
-    scale = tm.param("marker_scale")
-    poses = tm.attr(tm.param("traj"), "poses_se3")
-    cat = [x for x in verts.walk() if is_call_to(x, "numpy.concatenate")]
-    parts = None
-    if cat and cat[0].args[1] and cat[0].args[1][0].op in ("tuple", "list"):
-        parts = cat[0].args[1][0].args
-    if parts is None or len(parts) != 3:
-        ctx.undecidable("C20.3", f, f"coordinate-axes vertices are not a "
-                        f"concatenation of three per-axis arrays: "
-                        f"{fmt(verts)}")
+    verts, cols = b.get("xyz"), b.get("colors")
+    traj = tm.param("traj")
+    poses = tm.attr(traj, "poses_se3")
+    want = {"x": 0, "y": 1, "z": 2}
+    aff = Aff({poses: ("P", [(N,), (4,), (4,)])},
+              {tm.param("marker_scale"): "s"},
+              [tm.attr(traj, "num_poses"),
+               tm.call(tm.glob("builtins.len"), (poses,), ())],
+              {tm.param(f"{k}_color"): k for k in want},
+              unname=Interp.unname)
+    ok_step = tm.is_const(b.get("step"), 2)
+    try:
+        vd, cd = aff.dims(verts), aff.dims(cols)
+        if len(vd) != 2 or vd[1] != (3,) or not cd or \
+                vd[0] != cd[0] + (2,) or sorted(map(str, cd[0])) != \
+                sorted(map(str, (3, N))):
+            raise AffError(f"vertex array {vd} / colour array {cd}: not "
+                           f"(3 axes x n poses x 2 ends, 3) with one colour "
+                           f"per segment")
+        bad, axes_seen = [], {}
+        for idx in aff.positions([cd[0]]):
+            seg = idx[0]
+            start = [aff.entry(verts, [seg + (0,), (c,)]) for c in range(3)]
+            end = [aff.entry(verts, [seg + (1,), (c,)]) for c in range(3)]
+            col = aff.entry(cols, [seg] + [(0,)] * (len(cd) - 1)) \
+                if len(cd) == 1 else aff.entry(cols, [seg])
+            axis = None
+            for c in range(3):
+                pos = {("src", "P", "p", c, 3): {(): 1.0}}
+                if start[c] != pos:
+                    bad.append(f"segment {seg}: start coordinate {c} is "
+                               f"{show(start[c])}, expected P[p][{c}, 3]")
+                    continue
+                diff = dict(end[c])
+                if diff.pop(("src", "P", "p", c, 3), None) != {(): 1.0} or \
+                        len(diff) != 1:
+                    bad.append(f"segment {seg}: end coordinate {c} is "
+                               f"{show(end[c])}")
+                    continue
+                (k, coef), = diff.items()
+                if coef != {("s",): 1.0} or k[:3] != ("src", "P", "p"):
+                    bad.append(f"segment {seg}: end coordinate {c} is "
+                               f"{show(end[c])}")
+                    continue
+                if k[3] != c:
+                    bad.append(f"segment {seg}: end coordinate {c} adds "
+                               f"marker_scale * P[p][{k[3]}, {k[4]}] — a "
+                               f"*row* entry of the rotation (the inverse "
+                               f"rotation's axis); the pose's own axis is "
+                               f"the column P[p][{c}, a]")
+                    continue
+                if axis is not None and axis != k[4]:
+                    bad.append(f"segment {seg}: mixes columns {axis} and "
+                               f"{k[4]} of the rotation")
+                axis = k[4]
+            if axis is None:
+                continue
+            axes_seen[seg] = axis
+            cname = [k for k, v in want.items() if v == axis][0]
+            if col != {("sym", cname): {(): 1.0}}:
+                bad.append(f"segment {seg} along the pose's "
+                           f"{cname}-axis is coloured {show(col)}")
+        if not bad and sorted(axes_seen.values()) != [0, 1, 2]:
+            bad.append(f"the three segments of a pose use the rotation "
+                       f"columns {sorted(axes_seen.values())}")
+    except AffError as ex:
+        ctx.undecidable("C20.3", f, f"coordinate-axes markers: construction "
+                        f"not understood by the entry algebra: {ex}")
         return
-    blk3 = T("tuple", T("slice", tm.NONE, const(3), tm.NONE), const(3))
-    for k, part in enumerate(parts):
-        pe = per_element(part)
-        verdict = None
-        if pe is not None and not pe[3] and pe[2] is poses and \
-                pe[0].op == "list" and len(pe[0].args) == 2:
-            p = T("elem", poses, pe[1])
-            start, end = pe[0].args
-            if start is tm.sub(p, blk3):
-                # idiom 1: p.dot(unit_k)[:3]
-                if end.op == "sub" and end.args[1] is T(
-                        "slice", tm.NONE, const(3), tm.NONE):
-                    inner = end.args[0]
-                    from .c08 import _dot_operands
-                    ops = _dot_operands(inner)
-                    if ops is not None and ops[0] is p and \
-                            is_call_to(ops[1], "numpy.array") and \
-                            ops[1].args[1][0].op == "list" and \
-                            len(ops[1].args[1][0].args) == 4:
-                        u = ops[1].args[1][0].args
-                        slot = [i for i in range(3) if any(
-                            x is scale for x in u[i].walk())]
-                        zeros = [i for i in range(3)
-                                 if tm.is_const(u[i]) and u[i].args[1] == 0]
-                        verdict = slot == [k] and len(zeros) == 2 and \
-                            tm.is_const(u[3]) and u[3].args[1] == 1
-                # idiom 2: p[:3,3] + s * p[:3, k]   (column k)
-                elif end.op == "binop" and end.args[0] == "Add":
-                    col = T("tuple", T("slice", tm.NONE, const(3), tm.NONE),
-                            const(k))
-                    row = T("tuple", const(k), T("slice", tm.NONE, const(3),
-                                                 tm.NONE))
-                    if any(x is tm.sub(p, col) for x in end.walk()):
-                        verdict = True
-                    elif any(x is tm.sub(p, row) for x in end.walk()):
-                        verdict = False
-        if verdict is None:
-            # vectorised idioms: poses[:, :3, k] (column) vs poses[:, k, :3]
-            colv = [x for x in part.walk() if x.op == "sub" and
-                    x.args[1].op == "tuple" and len(x.args[1].args) == 3]
-            for x in colv:
-                a0, a1, a2 = x.args[1].args
-                if tm.is_const(a2, k) and a1.op == "slice":
-                    verdict = True
-                elif tm.is_const(a1, k) and a2.op == "slice":
-                    verdict = False
-        if verdict is None:
-            ctx.undecidable("C20.3", f, f"marker {XYZ[k]}: vertex "
-                            f"construction not recognised: {fmt(part)}")
-            continue
-        ctx.ob("C20.3", cl[0], verdict,
-               f"axis marker {XYZ[k]}: from the pose position along the "
-               f"pose's own {XYZ[k]}-axis (column {k} of its rotation), "
-               f"length marker_scale" if verdict else
-               f"axis marker {XYZ[k]} does not point along the pose's own "
-               f"{XYZ[k]}-axis (uses row {k} of the rotation, i.e. the "
-               f"inverse rotation, or a wrong unit vector): {fmt(part)}",
-               key=f"C20.3:marker-axis:{XYZ[k]}")
-    cols = b.get("colors")
-    want = [tm.param("x_color"), tm.param("y_color"), tm.param("z_color")]
-    order = [x for x in _ordered(cols) if x in want]
-    ok = order == want and tm.is_const(b.get("step"), 2)
-    ctx.ob("C20.3", cl[0], ok,
-           "axis markers: colours in x, y, z order matching the vertex "
-           "order; one segment per vertex pair (step=2)" if ok else
-           f"axis markers: colour order {[fmt(x) for x in order]} / step "
-           f"{fmt(b.get('step'))}", key="C20.3:marker-colors")
+    for k in XYZ:
+        ctx.ob("C20.3", cl[0], not bad,
+               f"axis marker {k}: from the pose position along the pose's "
+               f"own {k}-axis (column of its rotation), length "
+               f"marker_scale" if not bad else
+               f"axis markers deviate: {bad[0]}",
+               key=f"C20.3:marker-axis:{k}")
+    ctx.ob("C20.3", cl[0], not bad and ok_step,
+           "axis markers: colours match the segments' axes; one segment per "
+           "vertex pair (step=2)" if not bad and ok_step else
+           f"axis markers: colour / step deviate (step "
+           f"{fmt(b.get('step'))}"
+           f"{'; ' + bad[0] if bad else ''})", key="C20.3:marker-colors")
 
 
 def _ordered(t: T) -> List[T]:
@@ -637,6 +649,52 @@ def _x_cases(x: T, ts: T, st: T, view, timed_only: bool = False) -> bool:
     return bool(ok)
 
 
+_ELEMENTWISE = ("numpy.rad2deg", "numpy.degrees", "numpy.deg2rad",
+                "numpy.radians", "numpy.asarray", "numpy.array")
+
+
+def _three_columns(t: T) -> Optional[int]:
+    """documented layouts: positions are n x 3 and Euler angles n x 3, so
+    their transposes have three rows (zip over them yields the columns)"""
+    u = Interp.unname(t)
+    if not (u.op == "attr" and u.args[1] == "T"):
+        return None
+    x = Interp.unname(u.args[0])
+    while is_call_to(x, *_ELEMENTWISE) and len(x.args[1]) == 1:
+        x = Interp.unname(x.args[1][0])
+    if x.op == "attr" and x.args[1] == "positions_xyz":
+        return 3
+    if is_call_to(x, ".get_orientations_euler") or (
+            x.op == "call" and (tm.callee_name(x) or "").endswith(
+                "get_orientations_euler")):
+        return 3
+    return None
+
+
+def _column_form(y: T) -> T:
+    """A.T[i] is the column A[:, i]; an element-wise function of a column is
+    the column of the element-wise function"""
+    def rw(x: T):
+        if x.op == "sub" and x.args[0].op == "attr" and \
+                x.args[0].args[1] == "T" and tm.is_const(x.args[1]) and \
+                type(tm.const_val(x.args[1])) is int:
+            return _col(x.args[0].args[0], x.args[1])
+        if x.op == "sub" and x.args[1].op == "tuple" and \
+                len(x.args[1].args) == 2 and x.args[1].args[0] is ALL and \
+                is_call_to(x.args[0], *_ELEMENTWISE) and \
+                len(x.args[0].args[1]) == 1 and not x.args[0].args[2]:
+            inner = x.args[0]
+            return T("call", inner.args[0],
+                     (_col(inner.args[1][0], x.args[1].args[1]),), ())
+        return None
+    for _ in range(3):
+        n = y.map(rw)
+        if n is y:
+            break
+        y = n
+    return y
+
+
 def _time_axes(ctx, prog):
     tr = tm.param("traj")
     ts = tm.attr(tr, "timestamps")
@@ -647,7 +705,8 @@ def _time_axes(ctx, prog):
                                         const(i)), ("x", "y", "z")),
             ("traj_rpy", None, ("roll", "pitch", "yaw"))):
         f = prog.func(PL + name)
-        r = Interp(prog, inline=_helpers).run(f, _later_params(ctx, prog, f))
+        r = Interp(prog, inline=_helpers, known_len=_three_columns).run(
+            f, _later_params(ctx, prog, f))
         plots = [e for e in r.of_kind("call")
                  if e.data.get("name") == ".plot"]
         ylab = [e for e in r.of_kind("call")
@@ -655,7 +714,7 @@ def _time_axes(ctx, prog):
         ctx.require(len(plots) == 3 and len(ylab) == 3,
                     f"{name}: expected 3 plot rows")
         for i, (e, l) in enumerate(zip(plots, ylab)):
-            x, y = e.data["args"][0], e.data["args"][1]
+            x, y = e.data["args"][0], _column_form(e.data["args"][1])
             okx = _x_cases(x, ts, st, lambda t: t)
             if name == "traj_xyz":
                 oky = y is ycol(i)
